@@ -455,10 +455,189 @@ def gen_case(rng, force=None, coarse=None, ions=None):
     raise RuntimeError('generator did not produce a case')
 
 
-# ------------------------------------------------------------------------------ driving the implementation
-def resolve(s, record=None, coarse=False):
+# ------------------------------------------------------------------------------ ambiguous descriptors
+# The descriptions above use a unique label per descriptor pair, so at most one pair is ever compatible.  The variants
+# below make SEVERAL pairs compatible: the labels are dropped (legacy convention: equal text) or kept but resolved with
+# legacy=False (labels are not compared), and the descriptors written on one atom are shuffled (`C[$][!]` / `C[!][$]`).
+# Which pair then bonds is decided by the documented scan of match_bonding_descriptors: atoms of the first fragment of
+# the coarse edge in written order, for each the atoms of the second fragment in written order, for each the descriptors
+# of the first atom in written order, for each the descriptors of the second atom; the first compatible pair wins.
+# A variant is only used when a REFERENCE implementation of that documented rule (below; it reads the fragments and
+# the coarse edges as the package parsed them, nothing of resolve.py) pairs exactly the same atoms as in the uniquely
+# labelled description - then the overlapping variant must still denote the molecule of the disjoint description.
+import re as _re
+
+_DESC_RUN = _re.compile(r'(?:[=#.]?\[[$!][a-z]*\])+')
+_DESC_TOK = _re.compile(r'[=#.]?\[[$!][a-z]*\]')
+
+
+def ref_compatible(left, right, legacy):
+    if legacy:
+        if left == right and left[0] not in '<>':
+            return True
+        if {left[0], right[0]} == {'<', '>'}:
+            return left[1:] == right[1:]
+        return False
+    if left[0] == right[0] and left[0] in '$!':
+        return True
+    return {left[0], right[0]} == {'<', '>'}
+
+
+def ref_pairs(s, legacy, coarse):
+    """the descriptor pairs the documented first-match rule consumes, as a sorted list of
+    (sorted [(coarse node, atom), (coarse node, atom)], kind, order text); None when the string does not parse"""
     from cgsmiles.resolve import MoleculeResolver
-    resolver = MoleculeResolver.from_string(s, last_all_atom=not coarse)
+    try:
+        r = MoleculeResolver.from_string(s, last_all_atom=not coarse, legacy=legacy)
+        frags = r.fragment_dicts[0]
+        mg = r.molecule            # before resolve() the coarse graph sits here; resolve() makes it the meta graph
+        if mg.number_of_edges() == 0 and len(mg) > 1:
+            return None
+        state = {}
+        for c in mg.nodes:
+            g = frags[mg.nodes[c]['fragname']]
+            state[c] = [(a, list(d)) for a, d in nx.get_node_attributes(g, 'bonding').items()]
+        edges = [(p, n, mg.edges[p, n]['order']) for p, n in list(mg.edges)]
+    except Exception:          # noqa: BLE001
+        return None
+    out = []
+    for p, n, o in edges:
+        for _ in range(o):
+            hit = None
+            for a, ds in state[p]:
+                for b, dt in state[n]:
+                    for x in ds:
+                        for y in dt:
+                            if ref_compatible(x, y, legacy):
+                                hit = (a, ds, x, b, dt, y)
+                                break
+                        if hit:
+                            break
+                    if hit:
+                        break
+                if hit:
+                    break
+            if hit is None:
+                continue
+            a, ds, x, b, dt, y = hit
+            ds.remove(x)
+            dt.remove(y)
+            out.append((sorted([(p, a), (n, b)]), x[0], x[-1]))
+    return sorted(out)
+
+
+def ambiguate(rng, case):
+    """a variant of the overlapping description with several compatible descriptor pairs, or None when the documented
+    rule does not pair the same atoms as in the uniquely labelled description"""
+    if case.get('kind') == 'layered':
+        return None
+    coarse = case.get('coarse', False)
+    s = case['shared']['s']
+    cut = s.index('}.{') + 2
+    base, frs = s[:cut], s[cut:]
+
+    def shuffle_run(m):
+        toks = _DESC_TOK.findall(m.group(0))
+        rng.shuffle(toks)
+        return ''.join(toks)
+    frs = _DESC_RUN.sub(shuffle_run, frs)
+    labelled = base + frs
+    kind = rng.choice(['unlabelled', 'unlabelled', 'nolegacy'])
+    if kind == 'unlabelled':
+        variant, legacy = base + _re.sub(r'\[([$!])[a-z]*\]', r'[\1]', frs), True
+    else:
+        variant, legacy = labelled, False
+    want = ref_pairs(labelled, True, coarse)
+    got = ref_pairs(variant, legacy, coarse)
+    if want is None or got is None or want != got:
+        return None
+    if kind == 'unlabelled' and variant == labelled:
+        return None
+    out = copy.deepcopy(case)
+    out['shared']['s'] = variant
+    out['legacy'] = legacy
+    out['cls'] = case['cls'] + '+ambiguous-' + kind
+    return out
+
+
+def shared_plus_ordinary(rng):
+    """a molecule cut so that the SHARED atom s (fragment 0, shared with fragment 1) also carries one or two ordinary
+    cut bonds (to fragments 2, 4), while fragment 1 owns an ordinary cut bond of its own (to fragment 3) on one of
+    its other atoms: branch-shaped coarse graphs 0(-1(-3))(-2)"""
+    def el(leaf):
+        return rng.choice(['C', 'C', 'C', 'N', 'O'] if leaf else ['C', 'C', 'C', 'N'])
+    atoms, bonds, part = [], {}, {}
+
+    def add(e, f, q=0):
+        atoms.append({'el': e, 'q': q, 'arom': False})
+        part[len(atoms) - 1] = f
+        return len(atoms) - 1
+
+    def bond(a, b):
+        bonds[(min(a, b), max(a, b))] = 1
+    s_el = rng.choice([('C', 0), ('C', 0), ('C', 0), ('Si', 0), ('N', 1), ('N', 0)])
+    room = CAP[s_el] - 1          # one bond goes to fragment 1
+    s = add(s_el[0], 0, s_el[1])
+    prev = s
+    for _ in range(rng.randint(0, 2) if room >= 2 else 0):      # the rest of fragment 0: a chain from s
+        a = add('C', 0)
+        bond(prev, a)
+        if prev == s:
+            room -= 1
+        prev = a
+    b_atoms = []
+    prev = s
+    for i in range(rng.randint(1, 3)):             # fragment 1: a chain bonded to s
+        b = add('C' if i < 2 else el(False), 1)
+        bond(prev, b)
+        b_atoms.append(b)
+        prev = b
+    n_ord = 1 if room < 2 or rng.random() < 0.7 else 2
+    if room < 1:
+        return None
+    for j in range(n_ord):                          # ordinary cut bonds on s
+        c = add(el(True), 2 if j == 0 else 4)
+        bond(s, c)
+        if rng.random() < 0.3:
+            bond(c, add('C', part[c]))
+    anchor = rng.choice(b_atoms)
+    d = add(el(True), 3)                           # ordinary cut bond on fragment 1
+    bond(anchor, d)
+    if rng.random() < 0.3:
+        bond(d, add('C', 3))
+    share = {(min(s, b_atoms[0]), max(s, b_atoms[0])): s}
+    both = describe(rng, atoms, bonds, part, share, 'star')
+    if both is None:
+        return None
+    return {'shared': both['shared'], 'disjoint': both['disjoint'], 'mode': 'star', 'cls': 'shared+$:branch'}
+
+
+def gen_ambiguous(rng):
+    for _ in range(40):                # the targeted shape first
+        if rng.random() < 0.35:
+            break
+        c = shared_plus_ordinary(rng)
+        if c is None:
+            continue
+        for _ in range(3):
+            v = ambiguate(rng, c)
+            if v is not None:
+                return v
+    for _ in range(60):
+        c = gen_case(rng, coarse=(rng.random() < 0.1))
+        if 'shared+$' not in c['cls'] and rng.random() < 0.8:
+            continue
+        for _ in range(4):
+            v = ambiguate(rng, c)
+            if v is not None:
+                return v
+    return gen_case(rng)
+
+
+# ------------------------------------------------------------------------------ driving the implementation
+def resolve(s, record=None, coarse=False, legacy=True):
+    from cgsmiles.resolve import MoleculeResolver
+    resolver = MoleculeResolver.from_string(s, last_all_atom=not coarse, legacy=legacy)
     if record is not None:
         orig = resolver.squash_atoms
 
@@ -704,12 +883,27 @@ class C10(common.Prop):
                                  'phi': [['A0', 0, 0], ['A0', 1, 1], ['B0', 0, 2]],
                                  'owners': [[0, [0]], [1, [0]], [2, [1]]], 'frag_heavy': 3, 'npairs': 0},
                     'mode': 'star', 'coarse': True, 'cls': 'coarse:order0-on-removed-copy'})
+        # several compatible descriptor pairs (labels dropped / legacy=False), descriptors of one atom in both orders; the
+        # shared atom also carries an ordinary descriptor and the partner fragment an open compatible one (seed C10-10)
+        out.append({'shared': {'s': '{[#A]([#B][#D])[#C]}.{#A=CC[$][!],#B=[!]CC[$],#C=[$]O,#D=[$]N}',
+                               'phi': [['A', 0, 0], ['A', 1, 1], ['B', 0, 1], ['B', 1, 2], ['C', 0, 3], ['D', 0, 4]],
+                               'owners': [[0, [0]], [1, [0, 1]], [2, [1]], [3, [3]], [4, [2]]], 'frag_heavy': 6, 'npairs': 1},
+                    'disjoint': {'s': '{[#A]([#B][#D])[#C]}.{#A=CC[$c][$b],#B=[$b]C[$d],#C=[$c]O,#D=[$d]N}',
+                                 'phi': [['A', 0, 0], ['A', 1, 1], ['B', 0, 2], ['C', 0, 3], ['D', 0, 4]],
+                                 'owners': [[0, [0]], [1, [0]], [2, [1]], [3, [3]], [4, [2]]], 'frag_heavy': 5, 'npairs': 0},
+                    'mode': 'star', 'cls': 'shared+$:branch+ambiguous-unlabelled'})
+        arng = random.Random(2718)
+        out += [gen_ambiguous(arng) for _ in range(6)]
         out += [gen_layered(rng) for _ in range(3)]
         out += [gen_case(rng, force='star', coarse=False, ions=1.0), gen_case(rng, force='chain', coarse=True)]
         return out + [gen_case(rng, force=m) for m in ('star', 'chain', 'clique', 'star', 'chain')]
 
     def generate(self, ctx, n):
-        return [gen_layered(ctx.rng) if ctx.rng.random() < 0.2 else gen_case(ctx.rng) for _ in range(n)]
+        out = []
+        for _ in range(n):
+            r = ctx.rng.random()
+            out.append(gen_layered(ctx.rng) if r < 0.2 else (gen_ambiguous(ctx.rng) if r < 0.45 else gen_case(ctx.rng)))
+        return out
 
     def run_impl(self, case):
         if case.get('kind') == 'layered':
@@ -721,7 +915,7 @@ class C10(common.Prop):
         rec = {}
         shared, exc = None, None
         try:
-            shared = resolve(case['shared']['s'], rec, coarse=case.get('coarse', False))
+            shared = resolve(case['shared']['s'], rec, coarse=case.get('coarse', False), legacy=case.get('legacy', True))
         except Exception as exc_:          # noqa: BLE001
             exc = type(exc_).__name__
         if 'sq0' not in rec:
